@@ -44,6 +44,9 @@ CHECKS = {
  "C05": dict(level="exploration", sec="3/C05", technique="exhaustive structured byte/word grids per translator x policy, each lifted in a guarded worker and checked by an independent IL well-formedness validator incl. exhaustive guard-valuation truth tables",
    text="18 M liftings in quick (x86/amd64 byte grammar incl. prefixes, truncations, over-long strings; MIPS/PPC/AArch64 field grids; MIPS branch x delay-slot x buffer-length grid; 4 load addresses), thorough adds all ModRM/SIB forms and ALL 2^32 AArch64 words: never a panic/abort/hang, every Ok result well-sorted with exactly one enabled edge/successor under every guard valuation, and deterministic. Bytes outside the grids (for x86/MIPS/PPC) are not covered.",
    note="Trusted: harness validator. Hangs/aborts are attributed to one case by re-running the shard in trace mode."),
+ "C20": dict(level="exploration", sec="3/C20", technique="exhaustive enumeration of the 7 architecture descriptors against a register universe obtained by exhaustively lifting every register-field value of representative encodings, and against transcribed psABI tables",
+   text="All 7 architectures: every register the default calling convention names must be emitted by the translator with that width (universe = all scalars from lifting all 32 register numbers / all ModRM x REX forms), stack pointer, word size, endianness, argument order for n<16, stack-argument stride, return register, return address, preserved/trashed disjoint, sp preserved. The configuration space is finite and fully enumerated.",
+   note="Trusted: psABI transcription for argument order/return conventions (harness tables). The base offset of the stack-argument area is not part of the statement and only reported."),
 }
 NA = []
 def main():
